@@ -297,7 +297,11 @@ func runC06(w *World, r *Report, tier string) {
 			bad := ""
 			nM, nU := 0, 0
 			pIQ := route.Params[2]
-			walkPaths(after(mc), nil, nil, 5000, func(path []ssa.Instruction, end pathEnd) {
+			// (from the entry, so that a flag variable set where the packet's type was tested is known on the path)
+			walkPaths(entryLoc(route), nil, nil, 200000, func(path []ssa.Instruction, end pathEnd) {
+				if countOn(path, func(in ssa.Instruction) bool { return in == ssa.Instruction(mc) }) == 0 {
+					return
+				}
 				if _, isRet := path[len(path)-1].(*ssa.Return); !isRet {
 					bad = "a path after Match does not return"
 					return
@@ -427,7 +431,23 @@ func runC06(w *World, r *Report, tier string) {
 					iqArg = arg.(*ssa.Call).Call.Args[0]
 				}
 				T, _ := typeAssertSource(origin(iqArg), pIQ)
-				if origin(sender) != ssa.Value(route.Params[1]) || T == nil || w.typeStr(T) != "*stanza.IQ" {
+				iqOnEveryPath := false
+				if T == nil {
+					// a variable assigned where the type was tested: judged on every path to the reply
+					nT, okT := 0, true
+					walkPaths(entryLoc(route), tgt, nil, 100000, func(path []ssa.Instruction, end pathEnd) {
+						if !tgt(path[len(path)-1]) {
+							return
+						}
+						nT++
+						T2, _ := typeAssertSource(origin(resolveOn(iqArg, len(path)-1, path)), pIQ)
+						if T2 == nil || w.typeStr(T2) != "*stanza.IQ" {
+							okT = false
+						}
+					})
+					iqOnEveryPath = okT && nT > 0
+				}
+				if origin(sender) != ssa.Value(route.Params[1]) || !(iqOnEveryPath || (T != nil && w.typeStr(T) == "*stanza.IQ")) {
 					okNI = false
 				}
 			}
@@ -570,7 +590,7 @@ func runC06(w *World, r *Report, tier string) {
 			allInstrs(f, func(in ssa.Instruction) {
 				if isSend(in) {
 					n++
-					r.Check(allowed[fk] || isReplySend(in), "R6", fk+"→"+w.callKey(asCall(in)), w.ipos(in), "a send reachable from Router.route outside the automatic error reply and the stream-management retransmission", "allowed reply site")
+					r.Check(allowed[fk] || w.ownedOnlyBy(f, "xmpp.iqNotImplemented", "xmpp.SendMissingStz") || isReplySend(in), "R6", fk+"→"+w.callKey(asCall(in)), w.ipos(in), "a send reachable from Router.route outside the automatic error reply and the stream-management retransmission", "allowed reply site")
 				}
 			})
 		}
